@@ -14,6 +14,7 @@ TRUSTED_BASE = [
     "hand-written model/SingleObject.v of single_object_encoding.rs over the models of the datum codec and of the fingerprint (C08), tied by the correspondence run",
     "extraction (ExtrOcamlBasic) + ocaml/driver.ml; Rust harness (sinks of `sos`: Vec, a writer taking at most K bytes per write call, a fixed-size slice)",
     "sinks: SingleObject.so_encode_sink = write_all marker, write_all fingerprint, datum on a writer with a byte budget (Ser.write); that a writer accepting only a prefix per `write` call receives the same bytes through write_all is std's contract",
+    "harness `mutseq` (edits through nodes_mut(), then freeze of a clone + to_single_object_vec / from_single_object_*); lib/p_C08.random_edit for the edits",
     "the schemas whose fingerprint ends in 00 bytes are selected by the MODEL's fingerprint (CanonicalForm.fingerprint through `fp`); the search only filters candidates, the expected outcome (error) is that of C18_short / the model",
 ]
 ASSUMPTIONS = [
@@ -50,10 +51,89 @@ def zero_tail_schemas(rng, tier):
             out.append((nodes, v, z))
     return out
 
+def fixed0_cases(rng):
+    """schemas holding a `fixed` of size 0 (the boundary of the size written into the canonical form) at the root, in records,
+    arrays, maps, unions, under a decimal; and their neighbours of size 1 / 10 / 100"""
+    N = G.Node
+    out = []
+    for sz in (0, 0, 1, 10, 100):
+        fx = lambda: N("fixed", name="ns.Fx", size=sz)
+        cands = [[fx()],
+                 [N("record", name="R", fields=[("a", 1), ("f", 2), ("g", 2)]), N("int"), fx()],
+                 [N("array", items=1), fx()], [N("map", values=1), fx()],
+                 [N("union", variants=[1, 2]), N("null"), fx()],
+                 [N("union", variants=[1, 2, 3]), N("string"), fx(), N("fixed", name="Other", size=0)]]
+        if sz <= 10:
+            cands.append([N("fixed", name="Dec", size=sz, lt=("decimal", 0, 5))])
+        for nodes in cands:
+            v = G.ValueGen(rng, nodes, layouts=False).gen(0)
+            if v is not None:
+                out.append((nodes, v))
+    return out
+
+def plain_valid(nodes):
+    """the edited graph is still a schema in the specification's sense where the value generators depend on it: union branches
+    pairwise distinct (by unnamed type / full name) and not unions, distinct field names, symbols and full names"""
+    def bk(k):
+        n = nodes[k]
+        if n.t == "fixed" and n.kind() == "duration":
+            return "duration"
+        if n.t in ("record", "enum", "fixed"):
+            return "named:" + n.name
+        return n.t if n.kind() == n.t else n.kind()
+    names = [n.name for n in nodes if n.t in ("record", "enum", "fixed")]
+    if len(set(names)) != len(names):
+        return False
+    for n in nodes:
+        if n.t == "union":
+            ks = [bk(k) for k in n.variants]
+            if len(set(ks)) != len(ks) or any(nodes[k].t == "union" for k in n.variants):
+                return False
+        if n.t == "record" and len(set(f for f, _ in n.fields)) != len(n.fields):
+            return False
+        if n.t == "enum" and len(set(n.symbols)) != len(n.symbols):
+            return False
+    return True
+
+def edit_histories(rng, n):
+    """operation sequences on ONE SchemaMut value ending in single-object use of the schema frozen from it:
+    [fp | json | touch | clone]* edit+ [fp | clone | touch]* then (sos V) and (sod ..) -- the fingerprint may have been asked
+    for BEFORE the graph was edited. -> [(start nodes, ops before the single-object ops, edited nodes, value of the edited schema)]"""
+    import p_C08 as E
+    out = []
+    for _ in range(n * 8):
+        if len(out) >= n:
+            break
+        nodes = G.SchemaGen(rng, max_nodes=rng.choice([2, 4, 8]), max_depth=rng.choice([1, 2, 3]), logical=rng.random() < 0.5).build()
+        cur = [E.copy_node(x) for x in nodes]
+        ops = [rng.choice(["fp", "fp", "json", "touch", "clone"]) for _ in range(rng.randint(0, 3))]
+        if rng.random() < 0.7:
+            ops.insert(rng.randint(0, len(ops)), "fp")
+        for _ in range(rng.randint(1, 3)):
+            e = E.random_edit(rng, cur)
+            cur = [E.copy_node(x) for x in cur]
+            if e[0] == "push":
+                cur.append(e[1]); ops.append("(push %s)" % G.node_sx(e[1]))
+            else:
+                cur[e[1]] = e[2]; ops.append("(set %d %s)" % (e[1], G.node_sx(e[2])))
+            if rng.random() < 0.3:
+                ops.append(rng.choice(["fp", "clone", "touch", "freeze"]))
+        if not plain_valid(cur):
+            continue
+        try:
+            v = G.ValueGen(rng, cur, layouts=False).gen(0)
+        except (RecursionError, IndexError, TypeError, ValueError):
+            v = None
+        if v is not None:
+            out.append((nodes, ops, cur, v))
+    return out
+
 def run(ctx):
     rng = random.Random(ctx["seed"] * 1000003 + 18)
     n = 350 if ctx["tier"] == "quick" else 15000
     pairs = [G.schema_and_value(rng, layouts=False) for _ in range(n)]
+    import directed as D
+    pairs += fixed0_cases(rng) + D.zero_byte_cases()
     zt = zero_tail_schemas(rng, ctx["tier"])
     zero_tail = {G.schema_sx(nodes): z for nodes, v, z in zt}
     pairs += [(nodes, v) for nodes, v, z in zt]
@@ -61,6 +141,8 @@ def run(ctx):
     enc_lines = ["sos %s %s" % (s["schema"], s["present"]) for s in sp]
     ei, em = codec.both(enc_lines)
     fps = C.run_parallel(C.AVRODRIVE, ["fp " + s["schema"] for s in sp])
+    # the fingerprint the header must carry: the MODEL's (CanonicalForm.fingerprint = CRC-64-AVRO of the canonical form; C08)
+    mfps = C.run_parallel(C.AVROMODEL, ["fp " + s["schema"] for s in sp])
     # the same messages through other sinks: a writer whose `write` takes at most K bytes per call (short writes: K below
     # and above the header's 10 bytes), a fixed-size slice exactly as large as the message (same bytes), and slices that are
     # too small -- inside the marker, inside the fingerprint, inside the datum -- which must give Err, never a truncated Ok
@@ -78,7 +160,7 @@ def run(ctx):
     dec_lines, dec_meta = [], []
     msgs = []
     by_pcf = {}
-    for s, line, ri, rm, rf in zip(sp, enc_lines, ei, em, fps):
+    for s, line, ri, rm, rf, rmf in zip(sp, enc_lines, ei, em, fps, mfps):
         distinct.add(line)
         if not C.same_outcome(ri, rm) or (ri.startswith("(ok") and ri != rm):
             diffs.append(codec.diff_entry(line, ri, rm))
@@ -90,6 +172,16 @@ def run(ctx):
         msg, fp = C.unhex(p[1]), C.unhex(pf[1])
         if msg != b"\xc3\x01" + fp + C.unhex(s["canon"]):
             violations.append({"impl_case": line, "what": "message is not C3 01 + fingerprint + datum encoding", "impl": ri[:300]})
+        pmf = C.parse_sx(rmf)[0]
+        if pmf[0] == "ok" and msg[:10] != b"\xc3\x01" + C.unhex(pmf[1]):
+            violations.append({"impl_case": line, "what": "the header does not carry the schema's fingerprint (CRC-64-AVRO of its Parsing Canonical Form, computed by the model)",
+                               "impl": ri[:300], "expected_header": C.hx(b"\xc3\x01" + C.unhex(pmf[1])),
+                               "canonical_form": C.unhex(pmf[2]).decode("utf-8", "replace")[:300]})
+        elif pmf[0] == "ok":
+            # a well-formed message (header by the model) must be accepted
+            good = b"\xc3\x01" + C.unhex(pmf[1]) + C.unhex(s["canon"])
+            for m in ("slice", "(chunks %d)" % rng.randint(1, 12)):
+                dec_lines.append("sod %s any %s %s" % (s["schema"], C.hx(good), m)); dec_meta.append(("valid-model-header", "(ok %s)" % s["dany"]))
         by_pcf.setdefault(pf[2], set()).add(pf[1])
         msgs.append((s, msg, fp, pf[2]))
     vec_msg = {id(s): C.parse_sx(ri)[0] for s, ri in zip(sp, ei)}
@@ -117,7 +209,9 @@ def run(ctx):
     for i, (s, msg, fp, pcf) in enumerate(msgs):
         mode = lambda: rng.choice(["slice", "(chunks 1)", "(chunks %d)" % rng.randint(2, 12), "(chunks %d %d)" % (rng.randint(1, 10), rng.randint(1, 10))])
         for tg, exp in (("any", s["dany"]), (s["ttarget"], s["dtyped"])):
-            dec_lines.append("sod %s %s %s %s" % (s["schema"], tg, C.hx(msg), mode())); dec_meta.append(("valid", "(ok %s)" % exp))
+            # from the slice AND from a reader (the two entry points have their own header handling)
+            for m in ("slice", rng.choice(["(chunks 1)", "(chunks %d)" % rng.randint(2, 12), "(chunks %d %d)" % (rng.randint(1, 10), rng.randint(1, 10))])):
+                dec_lines.append("sod %s %s %s %s" % (s["schema"], tg, C.hx(msg), m)); dec_meta.append(("valid", "(ok %s)" % exp))
         # truncations of the header and beyond, corrupted header bytes
         if s["schema"] in zero_tail:
             # every header length 0..9 x the slice and readers that deliver the header in one / several short reads
@@ -169,6 +263,53 @@ def run(ctx):
             for cut in range(2 + t, 10):
                 for md in ("slice", "(chunks 1)", "(chunks 16)", "(chunks %d)" % max(1, cut - 1)):
                     dec_lines.append("sod %s any %s %s" % (sch, C.hx(msg[:cut]), md)); dec_meta.append(("short-header-padding", "err"))
+    # histories on one SchemaMut (fingerprint asked before edits through nodes_mut(), clones, touches), then single-object
+    # encoding / decoding with the schema frozen from it: the header must be that of the graph AS FROZEN
+    hs = edit_histories(rng, 150 if ctx["tier"] == "quick" else 5000)
+    hspec = C.run_parallel(C.AVROMODEL, ["spec %s %s" % (G.schema_sx(cur), v) for _, _, cur, v in hs])
+    hfp_new = C.run_parallel(C.AVROMODEL, ["fp " + G.schema_sx(cur) for _, _, cur, _ in hs])
+    hfp_old = C.run_parallel(C.AVROMODEL, ["fp " + G.schema_sx(nodes) for nodes, _, _, _ in hs])
+    hlines, hwant = [], []
+    for (nodes, ops, cur, v), rs, rn, ro in zip(hs, hspec, hfp_new, hfp_old):
+        ps, pn, po = C.parse_sx(rs), C.parse_sx(rn)[0], C.parse_sx(ro)[0]
+        if not ps or ps[0][0] != "ok" or ps[0][3] != "1" or pn[0] != "ok":
+            continue
+        ps = ps[0]
+        canon, dany, present = C.unhex(ps[2]), C.show_sx(ps[5]), C.show_sx(ps[6])
+        new_msg = b"\xc3\x01" + C.unhex(pn[1]) + canon
+        sods = ["(sod any %s %s)" % (C.hx(new_msg), m) for m in ("slice", "(chunks %d)" % rng.randint(1, 12))]
+        want = [("sos", C.hx(new_msg)), ("sod", "(ok %s)" % dany), ("sod", "(ok %s)" % dany)]
+        if po[0] == "ok" and po[2] != pn[2]:
+            # a message carrying the fingerprint of the graph BEFORE the edits (another canonical form)
+            old_msg = b"\xc3\x01" + C.unhex(po[1]) + canon
+            sods += ["(sod any %s %s)" % (C.hx(old_msg), m) for m in ("slice", "(chunks %d)" % rng.randint(1, 12))]
+            want += [("sod", "err"), ("sod", "err")]
+        hlines.append("mutseq %s %s (sos %s) %s" % (G.schema_sx(nodes), " ".join(ops), present, " ".join(sods)))
+        hwant.append((want, G.schema_sx(cur)))
+    for line, ri, (want, gnow) in zip(hlines, C.run_parallel(C.AVRODRIVE, hlines), hwant):
+        distinct.add(line)
+        pr = C.parse_sx(ri)[0] if ri.startswith("(") else ["crash"]
+        got = [x for x in pr[1:] if isinstance(x, list) and x[0] in ("sos", "sos-err", "sod", "freeze-err")] if pr[0] == "ok" else []
+        if pr[0] != "ok" or len(got) != len(want):
+            violations.append({"impl_case": line, "what": "a history on a SchemaMut followed by single-object use did not complete: %s" % ri[:200]})
+            continue
+        dist["history"] += 1
+        if any(g[0] in ("freeze-err", "sos-err") for g in got):
+            # the model accepts the edited graph and the value, the crate does not: a difference to look at, not a header violation
+            diffs.append({"impl_case": line, "model_case": "freeze " + gnow, "impl": ri[:400], "model": "accepted"})
+            continue
+        for step, ((kind, w), g) in enumerate(zip(want, got)):
+            if kind == "sos":
+                if g[1] != w:
+                    violations.append({"impl_case": line, "what": "single-object message written with a schema frozen after edits through nodes_mut(): not C3 01 + "
+                                       "fingerprint of the schema AS FROZEN + datum", "graph_as_frozen": gnow[:600], "got": g[1][:200], "expected": w[:200]})
+            elif w == "err":
+                if not (isinstance(g[1], list) and g[1][0] == "err"):
+                    violations.append({"impl_case": line, "what": "a message carrying the fingerprint of the schema BEFORE its edits (different canonical form) was decoded "
+                                       "with the schema frozen after them", "graph_as_frozen": gnow[:600], "got": C.show_sx(g[1])[:300]})
+            elif G.erase_borrow_text(C.show_sx(g[1])) != w:
+                violations.append({"impl_case": line, "what": "a well-formed message (fingerprint of the schema as frozen after edits) was not decoded to its value",
+                                   "graph_as_frozen": gnow[:600], "got": C.show_sx(g[1])[:300], "expected": w[:300]})
     di, dm = codec.both(dec_lines)
     for line, ri, rm, (kind, want) in zip(dec_lines, di, dm, dec_meta):
         distinct.add(line)
@@ -181,11 +322,16 @@ def run(ctx):
         elif G.erase_borrow_text(ri) != want:
             violations.append({"impl_case": line, "what": "a valid single-object message did not decode to the value", "impl": ri[:300], "expected": want[:300]})
     samples = [{"message": C.hx(m[1])[:80], "fingerprint": C.hx(m[2])} for m in msgs[:4]]
-    return {"evaluations": len(enc_lines) + len(dec_lines) + len(sink_lines), "distinct_nontrivial": len(distinct),
+    return {"evaluations": len(enc_lines) + len(dec_lines) + len(sink_lines) + len(hlines), "distinct_nontrivial": len(distinct),
             "rule": "schemas x values: message = C3 01 + fingerprint + extracted specification encoding, into a Vec, through writers taking at most "
                     "K bytes per write call and into exact-size slices (same message), into too-small slices (Err); decoded back (dynamic and typed target) "
                     "from a slice and from chunked readers; every header truncation length 0..9 (incl. schemas searched for fingerprints ending in 00 / FF, cut "
                     "inside that tail; and schemas with zero-byte datums whose model-computed fingerprint ends in 00 bytes: every header length 0..9 x {slice, 1 / 3 / 9 / 4+5+1 / 64 bytes per read} must be rejected), single-byte header corruptions, several bytes at once (same mask, exchanged, reversed, rotated, sum-preserving), messages "
                     "written under a schema with a different canonical form must be rejected; distinct canonical forms must have distinct "
-                    "fingerprints in the generated set; model vs crate",
+                    "fingerprints in the generated set; the header of every message is the MODEL's fingerprint of the schema (CRC-64-AVRO of the canonical "
+                    "form) and messages built with the model's header are accepted, from the slice and from readers; schemas holding a fixed of "
+                    "size 0 (root, record, array, map, unions, decimal) and zero-byte datums (message = header); histories on one SchemaMut "
+                    "(fingerprint / json / clone / touch, then edits through nodes_mut(), then freeze) followed by single-object encoding (header = "
+                    "fingerprint of the graph as frozen) and decoding (message with that fingerprint accepted, message with the pre-edit "
+                    "fingerprint rejected); model vs crate",
             "samples": samples, "violations": violations, "model_diffs": diffs, "distribution": dict(dist)}
